@@ -234,6 +234,37 @@ def check_chronological_input(rep: Report, rule: str) -> None:
             keyf = res[1]
     key_ok = keyf is not None and [unparse(s) for s in keyf.body] == [f"return {keyf.param_names[0]}.timestamp"]
     rep.check(ok and key_ok, rule, so.module, so.qualname, "entries are sorted by their timestamp (stable list.sort, ascending)", "AbstractEntrySet._sort_entries does not sort the entry list by key=<entry timestamp> in ascending order", loc(so.node))
+    # who-may-reorder: the only statements anywhere in the package that reorder or replace an entry list are that sort (overrides in
+    # subclasses and helper functions included): a second ordering, e.g. a tie-break applied before the stable timestamp sort, makes the
+    # list order of same-instant lots disagree with the lot index keys (timestamp, zero-padded numeric id)
+    base = prog.cls("rp2.abstract_entry_set", "AbstractEntrySet")
+    for mod in prog.package.modules.values():
+        for n in ast.walk(mod.tree):
+            bad = None
+            if isinstance(n, ast.Call) and isinstance(n.func, ast.Attribute) and n.func.attr in ("sort", "reverse", "insert", "pop", "remove", "clear", "extend") and isinstance(n.func.value, ast.Attribute) and n.func.value.attr == "_entry_list":
+                if n is not (sorts[0] if len(sorts) == 1 else None):
+                    bad = n
+            elif isinstance(n, (ast.Assign, ast.AugAssign, ast.AnnAssign)):
+                for tg in n.targets if isinstance(n, ast.Assign) else [n.target]:
+                    if isinstance(tg, (ast.Attribute, ast.Subscript)) and "_entry_list" in unparse(tg):
+                        from .loader import enclosing_function as _ef
+
+                        f = _ef(n)
+                        if not (f is not None and f.name == "__init__" and unparse(n.value) == "[]") and not (f is not None and f.name in ("duplicate",) and "copy" in unparse(n.value)):
+                            bad = n
+            if bad is not None:
+                from .loader import enclosing_class as _ec, enclosing_function as _ef2
+
+                f, c = _ef2(bad), _ec(bad)
+                rep.violation(rule, mod.name, f"{c.name}.{f.name}" if c and f else (f.name if f else "<module>"), f"entry list reordered outside the timestamp sort: {short(bad, 80)}", f"{short(bad, 100)} reorders or replaces an entry set's list in addition to AbstractEntrySet._sort_entries (stable sort by timestamp): entries with equal timestamps are then no longer in insertion (row) order, and the order of the lot list no longer agrees with the lot index keys (timestamp, zero-padded id) that bound a disposal's candidates", loc(bad))
+    for sub in prog.subclasses(base, strict=True):
+        ov = sub.methods.get("_sort_entries")
+        if ov is None:
+            continue
+        stmts = [st for st in ov.body if not norm._is_noise(st)]  # logging / declarations do not matter
+        first = stmts[0] if stmts else None
+        calls_super_first = first is not None and unparse(first) == "super()._sort_entries()"
+        rep.check(calls_super_first, rule, ov.module, ov.qualname, f"{sub.name}._sort_entries starts with super()._sort_entries()", f"{ov.qualname} overrides the sort of the entry list without calling the base sort first: iteration order of this set is not the time order the engine relies on", loc(ov.node))
 
 
 # ---------------------------------------------------------------------------
@@ -476,3 +507,81 @@ def check_seek_amounts(rep: Report, rule: str) -> None:
                 rep.check(ok, rule, fi.module, fi.qualname, f"{cls}: only lots with zero remaining amount are skipped", f"a candidate lot is skipped under {conds}; only lots whose cached remaining amount is not > ZERO may be skipped", loc(loop))
             else:
                 rep.violation(rule, fi.module, fi.qualname, f"{cls}: candidate loop path '{p.exit}'", f"a path of the candidate loop ends by '{p.exit}' (neither selecting nor skipping the lot)", loc(loop))
+
+
+# ---------------------------------------------------------------------------
+# heap typestate: a lot handed out by a seek stays in the candidate structure unless it is exhausted (C01.b, C02.f)
+def check_heap_typestate(rep: Report, rb: str) -> None:
+    m = model()
+    prog, norm = m.prog, m.norm
+    seek = prog.func(AAM, "AbstractFeatureBasedAccountingMethod.seek_non_exhausted_acquired_lot")
+    rep.analysed(seek)
+    loops = [n for n in seek.node.body if isinstance(n, ast.For)]
+    after = seek.node.body[seek.node.body.index(loops[0]) + 1 :] if loops else []
+    se = SymExec(norm, norm.ctx_for(seek, subst_locals=False), inline_helpers=False)
+    init = SPath()
+    init.vars["selected_acquired_lot"] = (("sym", "selected"), ("opt", ("cls", "rp2.in_transaction:InTransaction")))
+    init.vars["selected_acquired_lot_amount"] = (("sym", "selected_amount"), ("cls", "rp2.rp2_decimal:RP2Decimal"))
+    paths = se.run(after, init)
+    selecting = [p for p in paths if p.exit == "return" and p.ret is not None and p.ret[0] == "new"]
+    if not selecting:
+        raise AnalysisError("feature-based seek has no path returning a selected lot")
+    unconditional = True
+    for p in selecting:
+        pushes = [e for e in p.events if e[0] == "call" and e[1][0] == "call" and e[1][1].endswith("add_selected_lot_to_heap") and dict(e[1][2]).get("lot") == ("sym", "selected")]
+        if not pushes:
+            unconditional = False
+    if unconditional:
+        rep.ok(rb, "feature-based seek re-inserts the selected lot on every returning path", f"{len(selecting)} returning path(s)")
+    else:
+        # conditional disjunct: every seek must then be dominated by 'event is not earn-typed' (C01.c)
+        offenders = _unguarded_seeks(m)
+        if offenders:
+            for mod, qual, node in offenders:
+                rep.violation(
+                    rb,
+                    mod,
+                    qual,
+                    f"seek for a possibly earn-typed event: {short(node, 80)}",
+                    "the feature-based seek drops the selected lot from the heap on some returning path (it is re-inserted only when it exceeds the event amount), and this call seeks a lot on behalf of "
+                    "an event that may be earn-typed (income consumes nothing): the lot is lost with its full balance and HIFO/LOFO/LIFO pair later disposals with worse-ranked lots",
+                    loc(node),
+                )
+        else:
+            rep.ok(rb, "conditional re-insertion, and every seek is dominated by 'not is_earning()'", "C01.c disjunct")
+    # chronological: from_index only advances past exhausted lots
+    cseek = prog.func(AAM, "AbstractChronologicalAccountingMethod.seek_non_exhausted_acquired_lot")
+    rep.analysed(cseek)
+    adv = [n for n in ast.walk(cseek.node) if isinstance(n, ast.Call) and isinstance(n.func, ast.Attribute) and n.func.attr == "set_from_index"]
+    ok = len(adv) == 1 and unparse(adv[0].args[0]) == "lot_candidates.from_index + 1"
+    if ok:
+        g = m.guard_term(adv[0], norm.ctx_for(cseek, subst_locals=False), None, False)
+        gs = show(g)
+        ok = "__acquired_lot_2_partial_amount" in gs and "<= D0" in gs
+    rep.check(ok, rb, AAM, cseek.qualname, "chronological seek advances from_index by one only past a lot whose remaining amount is zero", "from_index is advanced under a condition other than 'cached remaining amount is not > ZERO' (or by more than one): a lot with balance would be skipped for good", loc(cseek.node))
+
+
+
+def _unguarded_seeks(m) -> list:
+    """Call sites that reach a seek on behalf of an event not known to be non-earning."""
+    prog = m.prog
+    out = []
+    fi = prog.func(TE, "_create_unfiltered_gain_and_loss_set")
+    for p, news, routine, f, loop in loop_branches(m):
+        if routine is None:
+            continue
+        rname = routine[1].split(".")[-1].split(":")[-1]
+        conds = [show(c) for c in p.conds()]
+        non_earn = any(c.startswith("not ") and "is_earning" in c for c in conds)
+        if rname in ("get_acquired_lot_for_taxable_event",) and not non_earn:
+            out.append((f.module, f.qualname, loop))
+    # the wrapper and the engine's timestamp-advance path seek for the NEXT event, whose type is unknown
+    wrap = prog.func(TE, "_get_next_taxable_event_and_acquired_lot")
+    for n in ast.walk(wrap.node):
+        if isinstance(n, ast.Call) and isinstance(n.func, ast.Attribute) and n.func.attr == "get_acquired_lot_for_taxable_event":
+            out.append((wrap.module, wrap.qualname, n))
+    gn = prog.func(AE, "AccountingEngine.get_next_taxable_event_and_amount")
+    for n in ast.walk(gn.node):
+        if isinstance(n, ast.Call) and isinstance(n.func, ast.Attribute) and n.func.attr == "get_acquired_lot_for_taxable_event":
+            out.append((gn.module, gn.qualname, n))
+    return out
